@@ -170,7 +170,7 @@ pub fn run(ctx: &Ctx, rep: &mut Report) {
     }
     failures.truncate(1);
     rep.absorb("regression", crate::util::SubOutcome { stats: st, failures, wall_s: started.elapsed().as_secs_f64() });
-    let n = ctx.tier.pick(2_000_000u64, 200_000_000);
+    let n = ctx.tier.pick(20_000_000u64, 400_000_000);
     rep.absorb(
         "new",
         run_sharded("C19", "new", ctx.seed, n, 64, strategy, check, to_json, signature),
